@@ -13,7 +13,7 @@ from asl_workflow_engine.asl_exceptions import IntrinsicFailure, PathMatchFailur
 
 PROPERTY = "C13"
 ASSUMPTIONS = [
-    "no stubs: evaluate_payload_template is called directly with the real json/base64/hashlib/re/jsonpath modules",
+    "evaluate_payload_template is called directly with the real json/base64/hashlib/re/jsonpath/random modules; the only planted name is set (below)",
     "the only exceptions the harness catches are IntrinsicFailure and PathMatchFailure/ParameterPathFailure; anything else escapes and is a counterexample",
     "paths used inside templates/intrinsics are the member forms $, $.a, $.a.b, $$.a (JSONPath evaluation itself belongs to C12)",
     "strings are bounded (2-3 characters per symbolic piece) over an alphabet containing , ' \\ ( ) { } [ ] ^ - and letters; C-level sinks (str.format, json, base64, hashlib, re with a symbolic pattern) realise their arguments, so these conditions enumerate the bounded space path by path",
@@ -144,7 +144,9 @@ def agree_b64decode(got, text):
 
 
 def check(expr, inp=None, ctx=None):
-    return agree(call(expr, inp, ctx), ref.outcome(expr, inp, ctx))
+    expr = conc(expr)
+    want = ref.outcome(expr, inp, ctx)       # the reference first: it never modifies its arguments
+    return agree(call(expr, inp, ctx), want)
 
 
 def unchanged(before, after):
@@ -152,7 +154,6 @@ def unchanged(before, after):
 
 
 FLOATS = [0.5, -1.5]
-STRS = ["", "a", "1"]
 
 
 def mk(kind: int, i: int, s: str):
@@ -326,7 +327,7 @@ def _make_typed(fname, nargs, ibound="True", sbound="len(@S@) <= 1", extra_pre="
     pre = []
     for n in names:
         pre.append("well_typed(k%s, i%s, s%s, %s, %s, %s)" % (n, n, n, kinds, ibound.replace("@I@", "i" + n), sbound.replace("@S@", "s" + n)))
-    doc = "\n".join(["requires: " + p for p in pre] + ["requires: " + extra_pre, "ensures: _"])
+    doc = "\n".join(["requires: " + extra_pre] + ["requires: " + p for p in pre] + ["ensures: _"])     # cheap cuts first
     fix = conc if realize else (lambda v: v)
 
     if nargs == 1:
@@ -398,7 +399,7 @@ def _make_literal(fname, nargs, extra_pre="True", outside=(), kinds="(1, 2, 3, 4
     names = ["a", "b", "c"][:nargs]
     strs = list(strs)
     pre = ["lit_ok(k%s, i%s, %s, %d)" % (n, n, kinds, len(strs)) for n in names]
-    doc = "\n".join(["requires: " + p for p in pre] + ["requires: " + extra_pre, "ensures: _"])
+    doc = "\n".join(["requires: " + extra_pre] + ["requires: " + p for p in pre] + ["ensures: _"])
     head = "States.%s(" % fname
 
     if nargs == 1:
@@ -800,9 +801,10 @@ SEPARATORS = [",", ", ", " , ", ",  "]
            outside=["white space other than blanks around arguments"])
 def argument_list_shapes(n: int, sep: int, ka: int, ia: int, kb: int, ib: int, kc: int, ic: int) -> bool:
     """
-    requires: 0 <= n <= 3 and 0 <= sep < 4 and lit_ok(ka, ia, (1, 2, 3, 4, 5, 7), 3) and lit_ok(kb, ib, (1, 3, 4), 3) and lit_ok(kc, ic, (2, 4, 5), 3) and (sep == 1 or (ka == 4 and kb == 3 and kc == 5))
-    requires: ib <= 1 and ic <= 1 and (n < 3 or ka in @KA3@)
+    requires: 0 <= n <= 3 and 0 <= sep < 4 and (sep == 1 or (ka == 4 and kb == 3 and kc == 5))
     requires: (n >= 1 or (ka == 1)) and (n >= 2 or (kb == 1)) and (n >= 3 or (kc == 2 and ic == 0))
+    requires: ib <= 1 and ic <= 1 and (n < 3 or ka in @KA3@)
+    requires: lit_ok(ka, ia, (1, 2, 3, 4, 5, 7), 3) and lit_ok(kb, ib, (1, 3, 4), 3) and lit_ok(kc, ic, (2, 4, 5), 3)
     ensures: _
     """
     strs = ["", "a,b", "(x)"]
